@@ -86,3 +86,81 @@ def r_resolverefs(root):
         k, v = run(mp)
         rep(what, k == "raise" and v == "TextXSemanticError", "%s: _resolve_rule_refs %s; documented TextXSemanticError" % (what, "raises %s" % v if k == "raise" else "completes"), props_=("C25", "C23"))
     return inst, out
+
+def r_resolvecls(root):
+    """C25.m  TextXVisitor._resolve_cls_refs decided by evaluation on a sample meta-model whose attributes and inheritor lists
+    still hold ClassCrossRef placeholders:
+      every placeholder is replaced by the class the meta-model finds under that name - in attributes and in the inheritor
+      lists of abstract rules, for every class of the meta-model (two classes of one simple name from different grammars
+      are both served and keep their own targets); an attribute whose class is a base type or a match rule becomes a
+      contained plain value (ref False, cont True), any other a link (ref True, containment as the assignment said);
+      the provider and match rule written in the grammar stay on the attribute whatever the kind of the target rule;
+      an unknown class name is a TextXSemanticError located at the reference, in the grammar's file."""
+    out = []; inst = 0
+    t = load(root, L); fn = find(t, "TextXVisitor._resolve_cls_refs"); ps = [a.arg for a in fn.args.args]
+    if len(ps) != 3: raise AnalysisError("_resolve_cls_refs: parameters %s" % ps)
+    fns = {k: v for k, v in helper_functions(root, L, "TextXVisitor._resolve_cls_refs").items() if k.startswith("_") and not k.startswith("__") and k != "_resolve_cls_refs"}
+    ct = load(root, "textx/const.py"); consts = {}
+    for st in ct.body:
+        if isinstance(st, ast.Assign) and isinstance(st.targets[0], ast.Name):
+            try: consts[st.targets[0].id] = pyeval.evaluate(st.value, dict(consts))
+            except (pyeval.Unsupported, pyeval.Raised): pass
+    COMMON, ABSTRACT, MATCH = consts.get("RULE_COMMON"), consts.get("RULE_ABSTRACT"), consts.get("RULE_MATCH")
+    if None in (COMMON, ABSTRACT, MATCH): raise AnalysisError("textx/const.py: rule kinds not found")
+    def xref(name): return HS({".kind": "ClassCrossRef", ".cls_name": name, ".position": 9})
+    def cls_(name, typ, fqn=None): return HS({".kind": "cls", ".__name__": name, "._tx_fqn": fqn or name, "._tx_type": typ, "._tx_attrs": {}, "._tx_inh_by": []})
+    def attr(name, target, cont=True, provider=None, mrule=None): return HS({".kind": "metaattr", ".name": name, ".cls": target, ".cont": cont, ".ref": None, ".mult": "1", ".position": 3, ".is_base_type": None, ".scope_provider": provider, ".match_rule_name": mrule})
+    prov = HS({".kind": "callable", ".tag": "RREL provider written in the grammar"})
+    def world(extra_attr=None):
+        A = cls_("A", COMMON); B = cls_("B", COMMON); K = cls_("Kw", MATCH); Abs = cls_("Abs", ABSTRACT); INT = cls_("INT", MATCH); ID = cls_("ID", MATCH)
+        Dup1 = cls_("Dup", COMMON, "Dup"); Dup2 = cls_("Dup", COMMON, "lib.Dup")
+        Model = cls_("Model", COMMON)
+        Model["._tx_attrs"] = {"a": attr("a", xref("A")), "n": attr("n", xref("INT")), "k": attr("k", xref("Kw")), "r": attr("r", xref("B"), cont=False, provider=prov, mrule="FQN"),
+                               "ra": attr("ra", xref("Abs"), cont=False, provider=prov, mrule="ID"), "rk": attr("rk", xref("Kw"), cont=False, provider=prov, mrule="ID")}
+        Abs["._tx_inh_by"] = [xref("A"), xref("B")]
+        Dup1["._tx_attrs"] = {"x": attr("x", xref("A"))}; Dup2["._tx_attrs"] = {"y": attr("y", xref("B"))}
+        if extra_attr: Model["._tx_attrs"]["bad"] = extra_attr
+        classes = [Model, A, B, K, Abs, INT, ID, Dup1, Dup2]
+        mm = _MM(classes); mm[".file_name"] = "g/main.tx"
+        mm[".namespaces"] = {"__base__": {}, None: {}, "lib": {}}          # a grammar given as a string lives in the namespace None
+        mp = HS({".kind": "parser", ".metamodel": mm})
+        return mp, mm, dict(Model=Model, A=A, B=B, Kw=K, Abs=Abs, INT=INT, Dup1=Dup1, Dup2=Dup2)
+    errs = []
+    def run(mp):
+        gp = HS({".kind": "grammar parser", ".debug": False, ".dprint": pyeval.PyFn(lambda *a: None), ".pos_to_linecol": pyeval.PyFn(lambda p_: (("line", p_), ("col", p_)))})
+        env = dict(consts)
+        env.update({"__functions__": fns, "__classes__": exprs.classes_env(), "__module__": t, "__maxdepth__": 40, ps[0]: HS({".kind": "visitor", ".debug": False}), ps[1]: gp, ps[2]: mp,
+                    "BASE_TYPE_NAMES": ["ID", "BOOL", "INT", "FLOAT", "STRICTFLOAT", "STRING", "NUMBER", "BASETYPE"],
+                    "TextXSemanticError": pyeval.PyFn(lambda *a, **k: (errs.append((a, k)), {".cls": "TextXSemanticError"})[1])})
+        try: return "ret", pyeval.run_block(fn.body, env, max_steps=40000)
+        except pyeval.Raised as r_: return "raise", r_.cls
+        except pyeval.Unsupported as u_: raise AnalysisError("_resolve_cls_refs: outside the evaluated subset: %s" % u_)
+    W = "TextXVisitor._resolve_cls_refs"
+    def rep(what, ok, msg, props_=("C25", "C01")):
+        nonlocal inst
+        inst += 1
+        for pr in props_:
+            ob(pr, "C25.m", L, W, what, ok)
+            if not ok: out.append(Finding(pr, "C25.m", L, W, what, msg))
+    mp, mm, o = world()
+    # the _MM sample raises KeyError for unknown names like the real meta-model
+    k, v = run(mp)
+    rep("the sample meta-model is linked", k == "ret", "linking the class references of the sample meta-model %s" % ("raises %s" % v if k == "raise" else "fails"), props_=("C25", "C01", "C32", "C23"))
+    if k == "ret":
+        at = o["Model"]["._tx_attrs"]
+        left = ["%s.%s" % (c[".__name__"], a[".name"]) for c in o.values() for a in c["._tx_attrs"].values() if isinstance(a[".cls"], dict) and a[".cls"].get(".kind") == "ClassCrossRef"] + ["%s inheritors" % c[".__name__"] for c in o.values() if any(isinstance(x, dict) and x.get(".kind") == "ClassCrossRef" for x in c["._tx_inh_by"])]
+        okt = not left and at["a"][".cls"] is o["A"] and at["n"][".cls"] is o["INT"] and at["k"][".cls"] is o["Kw"] and at["r"][".cls"] is o["B"] and at["ra"][".cls"] is o["Abs"] and o["Abs"]["._tx_inh_by"] == [o["A"], o["B"]] and o["Dup1"]["._tx_attrs"]["x"][".cls"] is o["A"] and o["Dup2"]["._tx_attrs"]["y"][".cls"] is o["B"]
+        rep("every class reference is replaced by the class of that name, for every class of the meta-model", okt, "after _resolve_cls_refs these references are still placeholders: %s; the targets are %s; documented: each attribute and each inheritor entry holds the class the meta-model finds under the written name - also for the second of two classes that share a simple name (lib.Dup.y -> B)" % (left or "none", {n_: (a_[".cls"].get(".__name__") if isinstance(a_[".cls"], dict) else a_[".cls"]) for n_, a_ in at.items()}), props_=("C25", "C01", "C23"))
+        flags = {n_: (a_[".ref"], a_[".cont"], a_[".is_base_type"]) for n_, a_ in at.items()}
+        wantf = {"a": (True, True, False), "n": (False, True, True), "k": (False, True, True), "r": (True, False, False), "ra": (True, False, False), "rk": (False, True, True)}
+        rep("base types and match rules become contained values, other rules links", flags == wantf, "after linking the attributes have (ref, cont, is_base_type) = %s; documented %s: an attribute of a base type or a match rule is a contained plain value, any other rule - common or abstract - a link whose containment is what the assignment said" % (flags, wantf), props_=("C25", "C01", "C03"))
+        okp = at["r"][".scope_provider"] is prov and at["r"][".match_rule_name"] == "FQN" and at["ra"][".scope_provider"] is prov and at["ra"][".match_rule_name"] == "ID"
+        rep("the provider and match rule written in the grammar stay on the attribute", okp, "after linking the reference attributes r (target: common rule B) and ra (target: abstract rule Abs) carry providers %s / %s and match rules %r / %r; documented: the RREL provider and the match rule written in the grammar, whatever the kind of the target rule" % ("of the grammar" if at["r"][".scope_provider"] is prov else at["r"][".scope_provider"], "of the grammar" if at["ra"][".scope_provider"] is prov else at["ra"][".scope_provider"], at["r"][".match_rule_name"], at["ra"][".match_rule_name"]), props_=("C32", "C25", "C11"))
+    for name in ("Nowhere", "lib.Nowhere", "nolib.A"):
+        del errs[:]
+        mp, mm, o = world(attr("bad", xref(name)))
+        k, v = run(mp)
+        kw_ = errs[-1][1] if errs else {}; a_ = errs[-1][0] if errs else ()
+        loc = (kw_.get("line", a_[1] if len(a_) > 1 else None), kw_.get("col", a_[2] if len(a_) > 2 else None), kw_.get("filename"))
+        rep("an unknown class name %r" % name, k == "raise" and v == "TextXSemanticError" and loc == (("line", 9), ("col", 9), "g/main.tx"), "a reference to the unknown class %r: _resolve_cls_refs %s with the location %s; documented: TextXSemanticError 'Unknown class/rule' at the reference (line, col of position 9) in the grammar's file" % (name, "raises %s" % v if k == "raise" else "completes", loc), props_=("C23", "C25"))
+    return inst, out
